@@ -10,9 +10,9 @@ extern "C" {
 }
 typedef long double LD;
 
-enum { L_PLAIN, L_FUZZY, L_NEURO, L_EXACT, L_REAL, L_OUT_LIMIT_ACTIVE, L_OUT_LIMIT_RELEASED, L_SUM_CLAMP_ACTIVE, L_SUM_CLAMP_RELEASED, L_ZERO_MID, L_MODE_SWITCH, L_POS_EQ_INC, L_GAIN_CHANGE, L_ZERO_RULES, L_LONG, L_RULES_RECONFIGURED };
+enum { L_PLAIN, L_FUZZY, L_NEURO, L_EXACT, L_REAL, L_OUT_LIMIT_ACTIVE, L_OUT_LIMIT_RELEASED, L_SUM_CLAMP_ACTIVE, L_SUM_CLAMP_RELEASED, L_ZERO_MID, L_MODE_SWITCH, L_POS_EQ_INC, L_GAIN_CHANGE, L_ZERO_RULES, L_LONG, L_RULES_RECONFIGURED, L_SHARED_TABLE };
 static char const *const labels[] = {"plain_pid", "fuzzy_pid", "neuro_pid", "exact_class", "real_class", "output_limit_active", "output_limit_released_again", "integrator_clamp_active",
-                                     "integrator_clamp_released_again", "zero_mid_history", "mode_switched_within_history", "positional_vs_incremental_compared", "gains_changed_mid_history", "fuzzy_all_zero_rule_base", "history_ge_50", "fuzzy_tables_or_operator_changed_mid_history", nullptr};
+                                     "integrator_clamp_released_again", "zero_mid_history", "mode_switched_within_history", "positional_vs_incremental_compared", "gains_changed_mid_history", "fuzzy_all_zero_rule_base", "history_ge_50", "fuzzy_tables_or_operator_changed_mid_history", "one_membership_table_object_for_both_inputs", nullptr};
 static char const *const metrics[] = {"max_steps", nullptr};
 static uint8_t const dict[] = {0, 1, 2, 3, 7, 8};
 static vp_info const info = {"C12", "pid", "", labels, metrics, 500, dict, sizeof(dict)};
@@ -272,11 +272,12 @@ static void case_fuzzy(Tape &t, Ctx &cx)
         memcpy(p, v.data(), sizeof(R) * v.size());
         return p;
     };
-    R *me = dup(f.me), *mec = dup(f.mec), *kp = dup(f.kp), *ki = dup(f.ki), *kd = dup(f.kd);
+    R *me = dup(f.me), *mec = f.shared ? me : dup(f.mec), *kp = dup(f.kp), *ki = dup(f.ki), *kd = dup(f.kd);
+    if (f.shared) { cx.label(L_SHARED_TABLE); }
     bool heap_tables = ro_keep.empty();
     size_t nb = A_PID_FUZZY_BFUZZ(f.n); // room for every set being active at once
     void *buf = malloc(nb), *buf2 = malloc(nb);
-    struct Fr { R *a, *b, *c, *d, *e; void *buf, *buf2; bool heap; ~Fr() { if (heap) { free(a); free(b); free(c); free(d); free(e); } free(buf); free(buf2); } } fr{me, mec, kp, ki, kd, buf, buf2, heap_tables};
+    struct Fr { R *a, *b, *c, *d, *e; void *buf, *buf2; bool heap; ~Fr() { if (heap) { free(a); free(b); free(c); free(d); free(e); } free(buf); free(buf2); } } fr{me, f.shared ? nullptr : mec, kp, ki, kd, buf, buf2, heap_tables};
     a_pid_fuzzy fresh;
     bool have_fresh = false;
     a_pid_fuzzy_set_rule(&z, f.n, me, mec, f.use_kp ? kp : nullptr, f.use_ki ? ki : nullptr, f.use_kd ? kd : nullptr);
